@@ -28,7 +28,7 @@ def build_hook_binary(tmpdir, srcdir=SRC, name='lbzip2-hook'):
     return out
 
 
-def run_traced(binary, data, n, level, ultra, seed, trace_path, timeout=120, check=True):
+def run_traced(binary, data, n, level, ultra, seed, trace_path, timeout=60, check=True):
     """compress `data` with the hook binary; returns (returncode, stdout bytes, events)"""
     if os.path.exists(trace_path):
         os.unlink(trace_path)
@@ -38,7 +38,10 @@ def run_traced(binary, data, n, level, ultra, seed, trace_path, timeout=120, che
     if check:
         env['LBZIP2_VERIF_CHECK'] = '1'
     args = [binary, '-n%d' % n, '-%d' % level] + (['-u'] if ultra else [])
-    r = subprocess.run(args, input=data, capture_output=True, env=env, timeout=timeout)
+    try:
+        r = subprocess.run(args, input=data, capture_output=True, env=env, timeout=timeout)
+    except subprocess.TimeoutExpired:
+        return 'timeout', b'', parse_trace(trace_path), b'timeout (hang)'
     return r.returncode, r.stdout, parse_trace(trace_path), r.stderr
 
 
